@@ -317,8 +317,8 @@ impl Prop for C08 {
         match (tier, cfg!(debug_assertions)) {
             (Tier::Quick, true) => 500_000,
             (Tier::Quick, false) => 500_000,
-            (Tier::Thorough, true) => 15_000_000,
-            (Tier::Thorough, false) => 15_000_000,
+            (Tier::Thorough, true) => 60_000_000,
+            (Tier::Thorough, false) => 60_000_000,
         }
     }
     fn gen(&self, rng: &mut Rng, _tier: Tier) -> LocCase {
